@@ -32,6 +32,7 @@ import (
 	"crypto/sha256"
 	"encoding/hex"
 	"encoding/json"
+	"errors"
 	"fmt"
 	"io/ioutil"
 	"path/filepath"
@@ -298,21 +299,51 @@ func decryptKeyV1(keyProtected *encryptedKeyJSONV1, auth string) (keyBytes []byt
 
 func getKDFKey(cryptoJSON cryptoJSON, auth string) ([]byte, error) {
 	authArray := []byte(auth)
-	salt, err := hex.DecodeString(cryptoJSON.KDFParams["salt"].(string))
+	saltHex, ok := cryptoJSON.KDFParams["salt"].(string)
+	if !ok {
+		return nil, errors.New("invalid KDF params: salt missing or not a string")
+	}
+	salt, err := hex.DecodeString(saltHex)
 	if err != nil {
 		return nil, err
 	}
-	dkLen := ensureInt(cryptoJSON.KDFParams["dklen"])
+	dkLen, err := kdfParamInt(cryptoJSON.KDFParams, "dklen")
+	if err != nil {
+		return nil, err
+	}
+	// derivedKey[:16] keys the cipher and derivedKey[16:32] the MAC
+	if dkLen < 32 {
+		return nil, fmt.Errorf("invalid KDF params: dklen %d, need at least 32", dkLen)
+	}
 
 	if cryptoJSON.KDF == keyHeaderKDF {
-		n := ensureInt(cryptoJSON.KDFParams["n"])
-		r := ensureInt(cryptoJSON.KDFParams["r"])
-		p := ensureInt(cryptoJSON.KDFParams["p"])
+		n, err := kdfParamInt(cryptoJSON.KDFParams, "n")
+		if err != nil {
+			return nil, err
+		}
+		r, err := kdfParamInt(cryptoJSON.KDFParams, "r")
+		if err != nil {
+			return nil, err
+		}
+		p, err := kdfParamInt(cryptoJSON.KDFParams, "p")
+		if err != nil {
+			return nil, err
+		}
+		// scrypt.Key divides by r and p while validating its parameters
+		if r <= 0 || p <= 0 {
+			return nil, fmt.Errorf("invalid KDF params: r=%d p=%d", r, p)
+		}
 		return scrypt.Key(authArray, salt, n, r, p, dkLen)
 
 	} else if cryptoJSON.KDF == "pbkdf2" {
-		c := ensureInt(cryptoJSON.KDFParams["c"])
-		prf := cryptoJSON.KDFParams["prf"].(string)
+		c, err := kdfParamInt(cryptoJSON.KDFParams, "c")
+		if err != nil {
+			return nil, err
+		}
+		prf, ok := cryptoJSON.KDFParams["prf"].(string)
+		if !ok {
+			return nil, errors.New("invalid KDF params: prf missing or not a string")
+		}
 		if prf != "hmac-sha256" {
 			return nil, fmt.Errorf("Unsupported PBKDF2 PRF: %s", prf)
 		}
@@ -323,13 +354,15 @@ func getKDFKey(cryptoJSON cryptoJSON, auth string) ([]byte, error) {
 	return nil, fmt.Errorf("Unsupported KDF: %s", cryptoJSON.KDF)
 }
 
-// TODO: can we do without this when unmarshalling dynamic JSON?
-// why do integers in KDF params end up as float64 and not int after
-// unmarshal?
-func ensureInt(x interface{}) int {
-	res, ok := x.(int)
-	if !ok {
-		res = int(x.(float64))
+// kdfParamInt fetches an integer KDF parameter. The parameters come from the
+// key file, i.e. from outside: a missing member or one of the wrong JSON type
+// is an error, never a panic.
+func kdfParamInt(params map[string]interface{}, name string) (int, error) {
+	switch x := params[name].(type) {
+	case int:
+		return x, nil
+	case float64:
+		return int(x), nil
 	}
-	return res
+	return 0, fmt.Errorf("invalid KDF params: %s missing or not a number", name)
 }
